@@ -59,7 +59,7 @@ ASSUME BestFirst(SpecNames)
 ArchRecOK(a) ==
   /\ IsPow2(a.alignment)
   /\ (a.requires_alignment = 1 => a.alignment >= RegBytesOf(a.name))      \* what aligned loads of A require
-  /\ (IsSpecArch(a.name) => a.alignment = RegBytesOf(a.name) /\ a.requires_alignment = 1)
+  /\ (IsSpecArch(a.name) => a.alignment >= RegBytesOf(a.name) /\ a.requires_alignment = 1)     \* no smaller than what aligned loads require (a larger power of two is fine)
   /\ (~IsSpecArch(a.name) => a.alignment >= 8)                              \* emulated: at least the widest element
   /\ (IsSpecArch(a.name) => a.idx >= 1 /\ a.idx <= Len(SpecArchs))         \* listed in all_x86_architectures (the ORDER is ListRecOK's subject)
   \* the inheritance chain: every base is an ancestor in the specification, and the direct parent is among them
